@@ -588,3 +588,10 @@ Fixpoint etcd_run (q : quirks) (o : oracle) (alive : bool) (users : list (string
 (** the user set in force after a history *)
 Definition current_users (alive : bool) (init : list (string * string)) (ops : list eop) : list (string * string) :=
   fold_left (fun u op => match op with EUpdate l => if alive then users_of l else u | _ => u end) ops init.
+
+(** * several Validator instances / reload generations in one process: every request is judged by
+      the configuration of the instance it is presented to, nothing else *)
+Record vstep := { vs_cfg : config; vs_req : request; vs_now : Z; vs_jnow : Z }.
+Definition step_outcome (q : quirks) (o : oracle) (s : vstep) : outcome :=
+  handle q o (vs_cfg s) (vs_req s) (vs_now s) (vs_jnow s).
+Definition multi_run (q : quirks) (o : oracle) (l : list vstep) : list outcome := map (step_outcome q o) l.
